@@ -186,7 +186,9 @@ def run_check(prop, tier, only=None, jobs=None, native=True, proof=True, verbose
         lines.append(f"VIOLATION property={prop} replay={p}")
         rc = 1
     baseline_dis = set(baseline.get('discharged', [])) if baseline else set()
-    for v in violations:
+    if len(violations) > 6:
+        lines.append(f"NOTE {len(violations)} obligations refuted; the first 6 are reported as VIOLATION lines, all are listed in the evidence file")
+    for v in violations[:6]:
         ob, r = v['ob'], v['harness']
         p = write_replay(prop, ob['name'], dict(kind='obligation-refuted', obligation=ob['name'], line=ob.get('line'), backend=ob.get('backend'),
                                                 counter_model=ob.get('model'), path=ob.get('path'), harness_doc=r.get('doc'), targets=r['targets'],
@@ -234,6 +236,7 @@ def run_check(prop, tier, only=None, jobs=None, native=True, proof=True, verbose
             'obligations_by_backend': backends, 'solver_time_s': round(solver_time, 2),
             'canary_obligations_checked': canaries,
             'lean_lemmas': lean_res,
+            'refuted': [v['ob']['name'] for v in violations],
             'out_of_reach': out_of_reach, 'undecided': [u['ob']['name'] for u in undecided],
             'bounded_standins': {'label': 'bounded (never counted as proved)', 'checks': nat_summary, 'cases': bounded_cases},
             'known_findings_matched': {k: v for k, v in known_hit.items()},
